@@ -84,6 +84,7 @@ func StepTotal() {
 	}
 	if err != nil {
 		verifrt.Cover("C01.error")
+		verifrt.Cover("C20.lexer-error")
 		verifrt.Assert(tok.Kind == lexer.Invalid, "C01.err-iff-invalid")
 		gerr, ok := err.(*gqlerror.Error)
 		verifrt.Assert(ok, "C20.lexer-error-type")
